@@ -1,8 +1,759 @@
-//! C14 (stub; being written)
+//! C14 Jet tables and foreign bindings match libsimplicity.
+//!
+//! Finite domain, enumerated completely by `fixed`:
+//!   stream = [0, family, hi, lo]   jet `ALL[index]` of family 0 = Core, 1 = Elements, 2 = Bitcoin
+//!   stream = [1, 0, hi, lo]        foreign function declaration number `index` (sorted by symbol)
+//!   stream = [1, 1, hi, lo]        foreign static number `index` (informational only: the property
+//!                                  speaks about functions; nothing about statics is asserted)
+//! Random streams (first byte >= 2) re-check a random element of the same sets.
+//!
+//! Relation between the families' codes (read off `src/jet/init/{core,elements}.rs` and
+//! `depend/simplicity/elements/primitive.c: decodePrimitive`): a Core code carries no family
+//! bit; the Elements code of a jet that also exists in Core is the single bit `0` followed by
+//! exactly the Core code (same integer, length + 1), Elements-specific jets start with `1`.
+//!
+//! Relation between costs: `analyseBounds` gives a JET node the cost
+//! `bounded_add(overhead, dag[i].cost)` with `overhead = 100` milliweight (`bounded.h`), so for a
+//! one-node program `cost bound == 100 + jet.cost()`; `dag[0].cost == jet.cost()` is read directly
+//! from the decoded node as well.
+
 use crate::engine::*;
+use crate::gen::prog::{Family, JetRef};
+use crate::model::bits::{self, Bits};
+use crate::model::c14_decls::{self as decls, Kind, Tables, Verdict, Widths};
+use crate::model::wire::{write_program, JetCodes, WNode};
+use serde_json::json;
+use simplicity::ffi::ffi::{c_size_t, ubounded, UBOUNDED_MAX, UWORD};
+use simplicity::ffi::tests::ffi::bitstream::{simplicity_closeBitstream, CBitstream};
+use simplicity::ffi::tests::ffi::dag::{CCombinatorCounters, CDagNode, CTag};
+use simplicity::ffi::tests::ffi::deserialize::simplicity_decodeMallocDag;
+use simplicity::ffi::tests::ffi::elements::{simplicity_elements_decodeJet, simplicity_elements_mallocBoundVars};
+use simplicity::ffi::tests::ffi::eval::simplicity_analyseBounds;
+use simplicity::ffi::tests::ffi::ty::CType;
+use simplicity::ffi::tests::ffi::type_inference::simplicity_mallocTypeInference;
+use simplicity::ffi::tests::ffi::SimplicityErr;
+use simplicity::jet::type_name::TypeName;
+use simplicity::jet::{Bitcoin, Core, Elements, Jet};
+use simplicity::{BitIter, BitWriter};
+use std::sync::OnceLock;
 
-pub const SPEC: Spec = Spec { rule: "stub", ..Spec::base("C14", "stub", case) };
+pub const SPEC: Spec = Spec {
+    rule: "exhaustive enumeration (fixed hook) of every jet of Core / Elements / Bitcoin (`ALL`) and of every foreign function declaration (extern blocks, #[no_mangle] exports, callback type aliases) and foreign static found by a textual parser under /repo/simplicity-sys/src; plus a few hundred random re-checks of random members of the same sets. Per jet: encode->decode identity with exact bit consumption (also with trailing junk), code prefix-free against all other codes of the family, name parses back and is unique, type names build and agree on bit width / TMR; Core: Elements namesake has the same type names and code = 0 ++ Core code; Elements: one-node program through the C decoder, C type inference and analyseBounds, C CMR / source+target TMR and bit size / node cost / cost bound (100 + cost) equal the Rust table; Bitcoin: codes, names, type names only (cmr/cost never called). Per declaration: arity and per-parameter / return type compatibility against every C prototype/definition/typedef of the same symbol found under depend/** (WRAP_ macro expanded textually), with integer widths taken from the C sizeof constants of this target; unparsed or unknown types are counted, never reported. Every jet / declaration case is non-trivial; distinct by (mode, family, index).",
+    design_ref: "§6 C14",
+    max_len: 8,
+    quick_cases: 200,
+    thorough_cases: 2000,
+    fixed: Some(fixed),
+    exhaustive: true,
+    ..Spec::base("C14", "Jet tables and foreign bindings match libsimplicity", case)
+};
 
-pub fn case(_cx: &mut Case) -> CaseResult {
+const SIG_EVAL: &str = "evalTCOExpression-binding-lacks-minCost";
+const SIG_BOUND_VARS_RET: &str = "mallocBoundVars-binding-returns-SimplicityErr";
+const SIG_DECODE_DAG_RET: &str = "decodeMallocDag-binding-returns-i32";
+
+/// The property's wording is "arity and parameter types".  Return types are compared as well;
+/// with `true` an incompatible return type is a violation (routed through `known_or_fail` for the
+/// two instances present in the pinned tree), with `false` it is only counted under a label.
+const ASSERT_RETURN_TYPES: bool = false;
+
+/// `enum { overhead = 100 }` in depend/simplicity/bounded.h (milli weight units)
+const C_OVERHEAD: u64 = 100;
+
+// ------------------------------------------------------------------------------------------
+// per-process tables
+
+struct Fam {
+    codes: Vec<Bits>,
+    names: Vec<String>,
+}
+
+fn encode_bits<J: Jet>(j: &J) -> Result<Bits, String> {
+    let mut sink = Vec::<u8>::new();
+    let n;
+    {
+        let mut w = BitWriter::new(&mut sink as &mut dyn std::io::Write);
+        n = j.encode(&mut w).map_err(|e| format!("encode of {} failed: {}", j, e))?;
+        if n != w.n_total_written() {
+            return Err(format!("encode of {} returned {} but wrote {} bits", j, n, w.n_total_written()));
+        }
+        w.flush_all().map_err(|e| format!("flush: {}", e))?;
+    }
+    let all = bits::unpack(&sink);
+    if all.len() < n {
+        return Err(format!("encode of {} reported {} bits but only {} reached the sink", j, n, all.len()));
+    }
+    Ok(all[..n].to_vec())
+}
+
+fn build_fam<J: Jet>(all: &[J]) -> Result<Fam, String> {
+    let mut codes = vec![];
+    let mut names = vec![];
+    for j in all {
+        codes.push(encode_bits(j)?);
+        names.push(j.to_string());
+    }
+    Ok(Fam { codes, names })
+}
+
+fn core_fam() -> &'static Result<Fam, String> {
+    static F: OnceLock<Result<Fam, String>> = OnceLock::new();
+    F.get_or_init(|| build_fam(&Core::ALL[..]))
+}
+fn elements_fam() -> &'static Result<Fam, String> {
+    static F: OnceLock<Result<Fam, String>> = OnceLock::new();
+    F.get_or_init(|| build_fam(&Elements::ALL[..]))
+}
+fn bitcoin_fam() -> &'static Result<Fam, String> {
+    static F: OnceLock<Result<Fam, String>> = OnceLock::new();
+    F.get_or_init(|| build_fam(&Bitcoin::ALL[..]))
+}
+
+fn elements_wire_codes() -> &'static JetCodes {
+    static C: OnceLock<JetCodes> = OnceLock::new();
+    C.get_or_init(|| JetCodes::new(Family::Elements))
+}
+
+fn tables() -> &'static Result<Tables, String> {
+    static T: OnceLock<Result<Tables, String>> = OnceLock::new();
+    T.get_or_init(decls::load)
+}
+
+fn widths() -> Widths {
+    use simplicity::ffi::ffi as f;
+    use std::mem::size_of;
+    // SAFETY: immutable constants defined in depend/wrapper.c
+    unsafe {
+        Widths {
+            c_uchar: f::c_sizeof_uchar,
+            c_int: f::c_sizeof_int,
+            c_uint: f::c_sizeof_uint,
+            c_size_t: f::c_sizeof_size_t,
+            c_fast8: f::c_sizeof_uint_fast8_t,
+            c_fast16: f::c_sizeof_uint_fast16_t,
+            c_fast32: f::c_sizeof_uint_fast32_t,
+            c_fast64: f::c_sizeof_uint_fast64_t,
+            c_least32: f::c_sizeof_uint_least32_t,
+            c_ubounded: f::c_sizeof_ubounded,
+            c_uword: f::c_sizeof_UWORD,
+            c_simplicity_err: simplicity::ffi::tests::ffi::c_sizeof_simplicity_err,
+            r_usize: size_of::<usize>(),
+            r_uword: size_of::<UWORD>(),
+            r_fast8: size_of::<f::c_uint_fast8_t>(),
+            r_fast16: size_of::<f::c_uint_fast16_t>(),
+            r_fast32: size_of::<f::c_uint_fast32_t>(),
+            r_fast64: size_of::<f::c_uint_fast64_t>(),
+            r_simplicity_err: size_of::<SimplicityErr>(),
+        }
+    }
+}
+
+// ------------------------------------------------------------------------------------------
+// enumeration
+
+fn fixed(_tier: Tier, emit: &mut dyn FnMut(&[u8])) {
+    // If the sources cannot be read the first declaration case reports a harness error.
+    let (n_fns, n_statics) = match tables() {
+        Ok(t) => (t.fns.len(), t.statics.len()),
+        Err(_) => (1, 0),
+    };
+    // (mode, family byte, size); the five sets are emitted round-robin so that every worker
+    // (and the evidence samples, which are the first cases of the first workers) sees all kinds
+    let sets: [(u8, u8, usize); 5] = [(0, 0, Core::ALL.len()), (0, 1, Elements::ALL.len()), (0, 2, Bitcoin::ALL.len()), (1, 0, n_fns), (1, 1, n_statics)];
+    let longest = sets.iter().map(|s| s.2).max().unwrap_or(0);
+    for i in 0..longest {
+        for (mode, fam, n) in sets {
+            if i < n {
+                emit(&[mode, fam, (i >> 8) as u8, i as u8]);
+            }
+        }
+    }
+}
+
+pub fn case(cx: &mut Case) -> CaseResult {
+    let mode = cx.src.u8();
+    let (mode, fam, idx) = match mode {
+        0 | 1 => {
+            let fam = cx.src.u8();
+            let idx = cx.src.u16() as usize;
+            (mode, fam, idx)
+        }
+        _ => {
+            // random member of the union of the five sets
+            let (nf, ns) = match tables() {
+                Ok(t) => (t.fns.len(), t.statics.len()),
+                Err(_) => (1, 0),
+            };
+            let sizes = [Core::ALL.len(), Elements::ALL.len(), Bitcoin::ALL.len(), nf, ns];
+            let mut k = cx.src.below(sizes.iter().sum());
+            let mut set = 0;
+            while k >= sizes[set] {
+                k -= sizes[set];
+                set += 1;
+            }
+            cx.label("random re-check");
+            if set < 3 {
+                (0, set as u8, k)
+            } else {
+                (1, (set - 3) as u8, k)
+            }
+        }
+    };
+    if mode == 0 {
+        let fam = fam.min(2);
+        cx.fp.write(&[0, fam]);
+        match fam {
+            0 => {
+                let i = idx.min(Core::ALL.len() - 1);
+                cx.fp.write_u64(i as u64);
+                jet_case(cx, FamId::Core, &Core::ALL[..], i, core_fam())
+            }
+            1 => {
+                let i = idx.min(Elements::ALL.len() - 1);
+                cx.fp.write_u64(i as u64);
+                jet_case(cx, FamId::Elements, &Elements::ALL[..], i, elements_fam())
+            }
+            _ => {
+                let i = idx.min(Bitcoin::ALL.len() - 1);
+                cx.fp.write_u64(i as u64);
+                jet_case(cx, FamId::Bitcoin, &Bitcoin::ALL[..], i, bitcoin_fam())
+            }
+        }
+    } else {
+        let t = match tables() {
+            Ok(t) => t,
+            Err(e) => return Err(harness_error(format!("cannot read the declarations: {}", e))),
+        };
+        if t.fns.is_empty() {
+            return Err(harness_error("no foreign function declaration found under /repo/simplicity-sys/src"));
+        }
+        let fam = fam.min(1);
+        if fam == 1 && !t.statics.is_empty() {
+            let i = idx.min(t.statics.len() - 1);
+            cx.fp.write(&[1, 1]);
+            cx.fp.write_u64(i as u64);
+            static_case(cx, t, i)
+        } else {
+            let i = idx.min(t.fns.len() - 1);
+            cx.fp.write(&[1, 0]);
+            cx.fp.write_u64(i as u64);
+            decl_case(cx, t, i)
+        }
+    }
+}
+
+// ------------------------------------------------------------------------------------------
+// jets
+
+#[derive(Copy, Clone, PartialEq, Eq, Debug)]
+enum FamId {
+    Core,
+    Elements,
+    Bitcoin,
+}
+
+/// Static label text per family.
+macro_rules! fam_label {
+    ($fam:expr, $text:literal) => {
+        match $fam {
+            FamId::Core => concat!("core: ", $text),
+            FamId::Elements => concat!("elements: ", $text),
+            FamId::Bitcoin => concat!("bitcoin: ", $text),
+        }
+    };
+}
+
+fn type_name_str(t: &TypeName) -> String {
+    String::from_utf8_lossy(t.0).into_owned()
+}
+
+/// Type-name clause: the name builds a type and the three readings (type, bit width, TMR) agree.
+fn check_type_name(jet: &str, which: &str, t: &TypeName) -> Result<(usize, [u8; 32]), String> {
+    let fin = t.to_final();
+    let w = t.to_bit_width();
+    if w != fin.bit_width() {
+        return Err(format!("{} type `{}` of {}: to_bit_width() = {} but to_final().bit_width() = {}", which, type_name_str(t), jet, w, fin.bit_width()));
+    }
+    if t.tmr() != fin.tmr() {
+        return Err(format!("{} type `{}` of {}: TypeName::tmr() differs from to_final().tmr()", which, type_name_str(t), jet));
+    }
+    Ok((w, fin.tmr().to_byte_array()))
+}
+
+fn is_prefix(a: &[bool], b: &[bool]) -> bool {
+    a.len() <= b.len() && b[..a.len()] == a[..]
+}
+
+fn jet_case<J: Jet + Copy + PartialEq>(cx: &mut Case, fam: FamId, all: &[J], i: usize, table: &'static Result<Fam, String>) -> CaseResult {
+    cx.nontrivial = true;
+    let table = match table {
+        Ok(t) => t,
+        Err(e) => return Err(format!("building the code table of the family failed: {}", e)),
+    };
+    let jet = all[i];
+    let name = jet.to_string();
+
+    // 1. encode -> decode
+    let code = encode_bits(&jet)?;
+    if code != table.codes[i] {
+        return Err(format!("encode of {} is not deterministic", name));
+    }
+    if code.is_empty() {
+        return Err(format!("{} has the empty code", name));
+    }
+    for (variant, junk) in [("no trailing bits", vec![]), ("trailing ones", vec![true; 9]), ("trailing zeros", vec![false; 9]), ("trailing pattern", (0..17).map(|k| (i >> (k % 9)) & 1 == 1).collect::<Vec<bool>>())] {
+        let mut stream = code.clone();
+        stream.extend(junk);
+        let bytes = bits::pack(&stream);
+        let mut it = BitIter::from(bytes.as_slice());
+        match J::decode(&mut it) {
+            Ok(back) => {
+                if back != jet {
+                    return Err(format!("code {} of {} decodes to {} ({})", bits::bits_to_string(&code), name, back, variant));
+                }
+                if it.n_total_read() != code.len() {
+                    return Err(format!("decoding {} consumed {} bits, its code has {} ({})", name, it.n_total_read(), code.len(), variant));
+                }
+            }
+            Err(e) => return Err(format!("code {} of {} does not decode: {:?} ({})", bits::bits_to_string(&code), name, e, variant)),
+        }
+    }
+    cx.label(fam_label!(fam, "encode -> decode identity, exact consumption"));
+
+    // 2. prefix-freeness against every other jet of the family
+    for (k, other) in table.codes.iter().enumerate() {
+        if k != i && (is_prefix(&code, other) || is_prefix(other, &code)) {
+            return Err(format!("code {} of {} and code {} of {} are prefix-related", bits::bits_to_string(&code), name, bits::bits_to_string(other), table.names[k]));
+        }
+    }
+    cx.label(fam_label!(fam, "code prefix-free against all others"));
+
+    // 3. name
+    match J::parse(&name) {
+        Ok(back) if back == jet => {}
+        Ok(back) => return Err(format!("name `{}` parses to a different jet ({})", name, back)),
+        Err(e) => return Err(format!("name `{}` does not parse: {:?}", name, e)),
+    }
+    if let Some(k) = table.names.iter().enumerate().position(|(k, n)| k != i && *n == name) {
+        return Err(format!("name `{}` is shared by entries {} and {} of ALL", name, i, k));
+    }
+    cx.label(fam_label!(fam, "name parses back, unique"));
+
+    // 4. type names
+    let (src_t, tgt_t) = (jet.source_ty(), jet.target_ty());
+    let (src_w, src_tmr) = check_type_name(&name, "source", &src_t)?;
+    let (tgt_w, tgt_tmr) = check_type_name(&name, "target", &tgt_t)?;
+    cx.label(fam_label!(fam, "type names build, widths and TMRs agree"));
+
+    let mut sample = json!({
+        "family": format!("{:?}", fam), "index": i, "jet": name, "code": bits::bits_to_string(&code),
+        "source_ty": type_name_str(&src_t), "source_bits": src_w, "target_ty": type_name_str(&tgt_t), "target_bits": tgt_w,
+    });
+
+    match fam {
+        FamId::Bitcoin => {
+            // cmr() and cost() are `unimplemented!()` in this revision: never called.
+            // (covered by the four bitcoin labels above)
+        }
+        FamId::Core => {
+            let efam = match elements_fam() {
+                Ok(t) => t,
+                Err(e) => return Err(format!("building the Elements code table failed: {}", e)),
+            };
+            let e = match Elements::parse(&name) {
+                Ok(e) => e,
+                Err(err) => return Err(format!("Core jet {} has no Elements namesake: {:?}", name, err)),
+            };
+            if e.to_string() != name {
+                return Err(format!("Elements::parse({:?}) displays as {}", name, e));
+            }
+            if e.source_ty() != src_t || e.target_ty() != tgt_t {
+                return Err(format!(
+                    "Core {} : {} -> {} but Elements {} : {} -> {}",
+                    name,
+                    type_name_str(&src_t),
+                    type_name_str(&tgt_t),
+                    name,
+                    type_name_str(&e.source_ty()),
+                    type_name_str(&e.target_ty())
+                ));
+            }
+            let ei = Elements::ALL.iter().position(|x| *x == e).ok_or_else(|| format!("Elements::{:?} is not in Elements::ALL", e))?;
+            let ecode = &efam.codes[ei];
+            // Elements code == `0` ++ Core code
+            if ecode.len() != code.len() + 1 || ecode[0] || ecode[1..] != code[..] {
+                return Err(format!("Core code of {} is {} but the Elements code is {} (expected 0 followed by the Core code)", name, bits::bits_to_string(&code), bits::bits_to_string(ecode)));
+            }
+            cx.label("core: Elements namesake has equal type names and code = 0 ++ Core code");
+            // informational: the families' cost tables (hence roots) are generated independently
+            let core_cmr = jet.cmr().to_byte_array();
+            let core_cost = cost_mw(&jet.cost().to_string())?;
+            let same_cost = core_cost == cost_mw(&e.cost().to_string())?;
+            let same_cmr = core_cmr == e.cmr().to_byte_array();
+            cx.label(match (same_cost, same_cmr) {
+                (true, true) => "core (info): cost and cmr equal the Elements namesake's",
+                (false, false) => "core (info): cost and cmr differ from the Elements namesake's",
+                (true, false) => "core (info): cost equal, cmr differs from the Elements namesake's",
+                (false, true) => "core (info): cost differs, cmr equal to the Elements namesake's",
+            });
+            sample["cmr"] = json!(hex(&core_cmr));
+            sample["cost_milliweight"] = json!(core_cost);
+            sample["elements_code"] = json!(bits::bits_to_string(ecode));
+        }
+        FamId::Elements => {
+            cx.label(if code[0] { "elements: Elements-specific jet (code starts with 1)" } else { "elements: jet shared with Core (code starts with 0)" });
+            let ej = Elements::ALL[i];
+            let rust_cmr = jet.cmr().to_byte_array();
+            let rust_cost = cost_mw(&jet.cost().to_string())?;
+            let c = c_one_jet(ej).map_err(|e| format!("Elements jet {} (code {}): {}", name, bits::bits_to_string(&code), e))?;
+            if c.cmr != rust_cmr {
+                return Err(format!("cmr of {}: Rust {} C {}", name, hex(&rust_cmr), hex(&c.cmr)));
+            }
+            if c.node_cost as u64 != rust_cost {
+                return Err(format!("cost of {}: Rust {} milliweight, C table {}", name, rust_cost, c.node_cost));
+            }
+            match c.cost_bound {
+                Ok(b) if b as u64 == C_OVERHEAD + rust_cost => {}
+                other => return Err(format!("analyseBounds of the one-node program {}: {:?}, expected overhead {} + cost {}", name, other, C_OVERHEAD, rust_cost)),
+            }
+            if c.src_tmr != src_tmr || c.src_bits as usize != src_w {
+                return Err(format!("source type of {}: Rust `{}` ({} bits, tmr {}), C {} bits, tmr {}", name, type_name_str(&src_t), src_w, hex(&src_tmr), c.src_bits, hex(&c.src_tmr)));
+            }
+            if c.tgt_tmr != tgt_tmr || c.tgt_bits as usize != tgt_w {
+                return Err(format!("target type of {}: Rust `{}` ({} bits, tmr {}), C {} bits, tmr {}", name, type_name_str(&tgt_t), tgt_w, hex(&tgt_tmr), c.tgt_bits, hex(&c.tgt_tmr)));
+            }
+            cx.label("elements: C cmr, source/target type roots and sizes, cost equal the Rust table");
+            // informational: the jet's C wrapper is declared on the Rust side and defined in C
+            if let Ok(t) = tables() {
+                let sym = format!("rustsimplicity_0_7_c_{}", name);
+                let declared = t.fns.iter().any(|f| f.symbol == sym);
+                let defined = t.c_fns.contains_key(&sym);
+                cx.label(if declared && defined { "elements (info): wrapper rustsimplicity_0_7_c_<name> declared in Rust and defined in C" } else { "elements (info): wrapper declaration or C definition not found" });
+            }
+            sample["cmr"] = json!(hex(&rust_cmr));
+            sample["cost_milliweight"] = json!(rust_cost);
+            sample["c"] = json!({"cmr": hex(&c.cmr), "node_cost": c.node_cost, "cost_bound": format!("{:?}", c.cost_bound), "source_tmr": hex(&c.src_tmr), "source_bits": c.src_bits, "target_tmr": hex(&c.tgt_tmr), "target_bits": c.tgt_bits});
+        }
+    }
+    cx.set_sample(|| sample);
     Ok(())
+}
+
+fn cost_mw(s: &str) -> Result<u64, String> {
+    s.parse::<u64>().map_err(|_| harness_error(format!("Cost displays as {:?}, not an integer", s)))
+}
+
+struct FreeOnDrop(*mut u8);
+impl Drop for FreeOnDrop {
+    fn drop(&mut self) {
+        unsafe { simplicity::ffi::alloc::rust_0_7_free(self.0) }
+    }
+}
+
+fn root_bytes(m: &simplicity::ffi::ffi::sha256::CSha256Midstate) -> [u8; 32] {
+    let mut a = [0u8; 32];
+    for i in 0..8 {
+        a[4 * i..4 * i + 4].copy_from_slice(&m.s[i].to_be_bytes());
+    }
+    a
+}
+
+struct CJet {
+    cmr: [u8; 32],
+    node_cost: ubounded,
+    cost_bound: Result<ubounded, SimplicityErr>,
+    src_tmr: [u8; 32],
+    src_bits: ubounded,
+    tgt_tmr: [u8; 32],
+    tgt_bits: ubounded,
+}
+
+/// The one-node program consisting of `jet` through libsimplicity: decodeMallocDag (Elements
+/// jet decoder), closeBitstream, mallocTypeInference, analyseBounds.  Modelled on `cbind::run`.
+fn c_one_jet(jet: Elements) -> Result<CJet, String> {
+    let program = bits::pack(&write_program(&[WNode::Jet(JetRef::Elements(jet))], elements_wire_codes()));
+    let mut stream = CBitstream::from(program.as_slice());
+    let mut census = CCombinatorCounters::default();
+    unsafe {
+        let mut dag: *mut CDagNode = std::ptr::null_mut();
+        let r = simplicity_decodeMallocDag(&mut dag, simplicity_elements_decodeJet, &mut census, &mut stream);
+        let len = match SimplicityErr::from_i32(r) {
+            Ok(n) => n as usize,
+            Err(e) => return Err(format!("the C decoder rejects the one-node program {}: {:?}", hex(&program), e)),
+        };
+        let _d1 = FreeOnDrop(dag as *mut u8);
+        if len != 1 || dag.is_null() {
+            return Err(format!("the C decoder returned {} nodes for a one-node program", len));
+        }
+        if let Err(e) = SimplicityErr::from_i32(simplicity_closeBitstream(&mut stream)) {
+            return Err(format!("the C decoder did not consume exactly the jet's code: closeBitstream {:?}", e));
+        }
+        let node = &*dag;
+        if node.tag != CTag::JET {
+            return Err(format!("the C decoder produced a {:?} node", node.tag));
+        }
+        let cmr = root_bytes(&node.cmr);
+        let node_cost = node.cost;
+        let mut type_dag: *mut CType = std::ptr::null_mut();
+        if let Err(e) = simplicity_mallocTypeInference(&mut type_dag, simplicity_elements_mallocBoundVars, dag, len as c_size_t, &census).into_result() {
+            return Err(format!("C type inference fails: {:?}", e));
+        }
+        if type_dag.is_null() {
+            return Err(harness_error("mallocTypeInference returned a NULL type dag (allocation failure)"));
+        }
+        let _d2 = FreeOnDrop(type_dag as *mut u8);
+        let node = &*dag;
+        let (six, tix) = (node.aux_types.types[0], node.aux_types.types[1]);
+        let (st, tt) = (&*type_dag.add(six), &*type_dag.add(tix));
+        let (mut cb, mut wb, mut fb, mut cost): (ubounded, ubounded, ubounded, ubounded) = (0, 0, 0, 0);
+        let cost_bound = simplicity_analyseBounds(&mut cb, &mut wb, &mut fb, &mut cost, UBOUNDED_MAX, 0, UBOUNDED_MAX, dag, type_dag, len as c_size_t).into_result().map(|_| cost);
+        Ok(CJet { cmr, node_cost, cost_bound, src_tmr: root_bytes(&st.type_merkle_root), src_bits: st.bit_size, tgt_tmr: root_bytes(&tt.type_merkle_root), tgt_bits: tt.bit_size })
+    }
+}
+
+// ------------------------------------------------------------------------------------------
+// declarations
+
+fn kind_label(k: Kind) -> &'static str {
+    match k {
+        Kind::Import => "declaration: function in an extern block",
+        Kind::Export => "declaration: #[no_mangle] function exported to C",
+        Kind::Callback => "declaration: callback type alias",
+    }
+}
+
+fn note_label(n: &'static str) -> &'static str {
+    if n == decls::NOTE_VOID {
+        "declaration (note): untyped pointer on one side"
+    } else if n == decls::NOTE_RUST_CONST_C_MUT {
+        "declaration (note): Rust *const / & where C takes a non-const pointer"
+    } else if n == decls::NOTE_RUST_MUT_C_CONST {
+        "declaration (note): Rust *mut where C takes a const pointer"
+    } else if n == decls::NOTE_SIGN {
+        "declaration (note): signedness differs"
+    } else if n == decls::NOTE_PLATFORM {
+        "declaration (note): fixed Rust width for a C type of platform-dependent width (equal on this target)"
+    } else {
+        "declaration (note): simplicity_err returned as plain i32"
+    }
+}
+
+fn decl_case(cx: &mut Case, t: &Tables, i: usize) -> CaseResult {
+    cx.nontrivial = true;
+    let f = &t.fns[i];
+    let w = widths();
+    cx.label(kind_label(f.kind));
+    cx.label_if(f.file.ends_with("jets_ffi.rs"), "declaration: jet wrapper (jets_ffi.rs)");
+    let protos: &[decls::CFn] = t.c_fns.get(&f.symbol).map(|v| v.as_slice()).unwrap_or(&[]);
+    let rust_sig = format!("{} [{}; symbol {}]", f.text, f.file, f.symbol);
+    let c_sigs: Vec<String> = protos.iter().map(|p| format!("{} [{}: {}]", p.text, p.file, p.origin)).collect();
+    cx.note(|| format!("Rust: {}\n        C: {:?}", rust_sig, c_sigs));
+    cx.set_sample(|| json!({"declaration": i, "kind": f.kind.name(), "symbol": f.symbol, "rust": rust_sig, "rust_params": f.params, "rust_ret": f.ret, "c": c_sigs}));
+
+    if !f.problems.is_empty() {
+        cx.label("declaration: Rust side not parsed with confidence (skipped)");
+        cx.note(|| format!("problems: {:?}", f.problems));
+        return Ok(());
+    }
+    if protos.is_empty() {
+        cx.label("declaration: C prototype not found (skipped)");
+        return Ok(());
+    }
+    cx.label_if(protos.iter().any(|p| p.origin.contains("expansion of")), "declaration: C definition obtained by macro expansion");
+    let c_arity = protos[0].params.len();
+    if protos.iter().any(|p| p.params.len() != c_arity) {
+        cx.label("declaration: C prototypes disagree among themselves (skipped)");
+        return Ok(());
+    }
+    cx.label("declaration: matched with a C prototype");
+
+    // arity
+    if f.params.len() != c_arity {
+        let detail = || format!("arity differs: Rust declares {} parameters, C has {}.\n  Rust: {}\n  C:    {}", f.params.len(), c_arity, rust_sig, c_sigs.join("\n        "));
+        if f.symbol == "rustsimplicity_0_7_evalTCOExpression" && f.params.len() == 8 {
+            return cx.known_or_fail(SIG_EVAL, detail);
+        }
+        return Err(detail());
+    }
+    cx.label("declaration: arity equal");
+
+    let mut mismatches: Vec<String> = vec![];
+    let mut ret_mismatches: Vec<String> = vec![];
+    let mut unknown = false;
+    for p in protos {
+        for (k, (rt, ct)) in f.params.iter().zip(&p.params).enumerate() {
+            match decls::compare(rt, ct, true, &w) {
+                Verdict::Compatible(notes) => {
+                    for n in notes {
+                        cx.label(note_label(n));
+                    }
+                }
+                Verdict::Unknown(why) => {
+                    unknown = true;
+                    cx.note(|| format!("parameter {}: {}", k, why));
+                }
+                Verdict::Mismatch(m) => mismatches.push(format!("parameter {} (`{}`): {} [{}]", k, f.param_names.get(k).cloned().unwrap_or_default(), m, p.file)),
+            }
+        }
+        match decls::compare(&f.ret, &p.ret, false, &w) {
+            Verdict::Compatible(notes) => {
+                for n in notes {
+                    cx.label(note_label(n));
+                }
+            }
+            Verdict::Unknown(why) => {
+                unknown = true;
+                cx.note(|| format!("return type: {}", why));
+            }
+            Verdict::Mismatch(m) => ret_mismatches.push(format!("return type: {} [{}]", m, p.file)),
+        }
+    }
+    cx.label_if(unknown, "declaration: some type not in the table (that position skipped)");
+    if !mismatches.is_empty() {
+        mismatches.sort();
+        mismatches.dedup();
+        return Err(format!("parameter types differ:\n  {}\n  Rust: {}\n  C:    {}", mismatches.join("\n  "), rust_sig, c_sigs.join("\n        ")));
+    }
+    cx.label_if(!unknown, "declaration: all parameter types compatible");
+    if !ret_mismatches.is_empty() && !ASSERT_RETURN_TYPES {
+        cx.label("declaration (note): RETURN TYPE DIFFERS (not asserted)");
+        cx.note(|| format!("{:?}", ret_mismatches));
+        return Ok(());
+    }
+    if !ret_mismatches.is_empty() {
+        ret_mismatches.sort();
+        ret_mismatches.dedup();
+        let detail = || format!("{}\n  Rust: {}\n  C:    {}", ret_mismatches.join("\n  "), rust_sig, c_sigs.join("\n        "));
+        // Case predicates of the two return-type defects present in the pinned tree.
+        let is_bound_vars = (f.symbol == "rustsimplicity_0_7_elements_mallocBoundVars" || f.symbol == "rustsimplicity_0_7_callback_mallocBoundVars") && f.ret == "SimplicityErr";
+        let is_decode_dag = f.symbol == "rustsimplicity_0_7_decodeMallocDag" && f.ret == "i32";
+        if is_bound_vars {
+            return cx.known_or_fail(SIG_BOUND_VARS_RET, detail);
+        }
+        if is_decode_dag {
+            return cx.known_or_fail(SIG_DECODE_DAG_RET, detail);
+        }
+        return Err(detail());
+    }
+    cx.label_if(!unknown, "declaration: return type compatible");
+    Ok(())
+}
+
+/// Foreign statics: compared for information only (the property is about functions).
+fn static_case(cx: &mut Case, t: &Tables, i: usize) -> CaseResult {
+    cx.nontrivial = true;
+    let s = &t.statics[i];
+    let w = widths();
+    let vars: &[decls::CVar] = t.c_vars.get(&s.symbol).map(|v| v.as_slice()).unwrap_or(&[]);
+    let c_texts: Vec<String> = vars.iter().map(|v| format!("{} [{}]", v.text, v.file)).collect();
+    cx.set_sample(|| json!({"static": i, "symbol": s.symbol, "rust": format!("static {}: {} [{}]", s.rust_name, s.ty, s.file), "c": c_texts}));
+    if vars.is_empty() {
+        cx.label("static (info): C definition not found");
+        return Ok(());
+    }
+    let rust_array = decls::parse_rust_type(&s.ty).array;
+    let mut verdicts = vec![];
+    for v in vars {
+        if v.is_array != rust_array {
+            verdicts.push(Verdict::Mismatch(format!("array on one side only: Rust `{}`, C `{}`", s.ty, v.text)));
+        } else {
+            verdicts.push(decls::compare(&s.ty, &v.ty, false, &w));
+        }
+    }
+    if verdicts.iter().any(|v| matches!(v, Verdict::Mismatch(_))) {
+        cx.label("static (info): TYPE DIFFERS from the C definition (nothing asserted; see replay)");
+        cx.note(|| format!("static {}: {} vs {:?}: {:?}", s.symbol, s.ty, c_texts, verdicts));
+    } else if verdicts.iter().any(|v| matches!(v, Verdict::Unknown(_))) {
+        cx.label("static (info): type not in the table");
+    } else {
+        cx.label("static (info): type compatible with the C definition");
+    }
+    Ok(())
+}
+
+#[cfg(test)]
+mod survey {
+    //! `cargo test --release --offline c14_survey -- --nocapture`: prints every declaration with
+    //! its verdicts (a reading aid for the parser; asserts nothing).
+    use super::*;
+
+    #[test]
+    fn c14_compare_table() {
+        let w = widths();
+        let mis = |r: &str, c: &str| matches!(decls::compare(r, c, true, &w), Verdict::Mismatch(_));
+        let ok = |r: &str, c: &str| matches!(decls::compare(r, c, true, &w), Verdict::Compatible(_));
+        assert!(ok("*mut CFrameItem", "frameItem* dst"));
+        assert!(ok("*const CFrameItem", "const frameItem* src"));
+        assert!(ok("&mut CFrameItem", "frameItem *frame"));
+        assert!(ok("*const elements::CTxEnv", "const txEnv* env"));
+        assert!(ok("c_uchar", "flags_type anti_dos_checks"));
+        assert!(ok("c_size_t", "const size_t len"));
+        assert!(ok("ubounded", "ubounded minCost"));
+        assert!(ok("*const c_uchar", "const unsigned char *genesisHash"));
+        assert!(ok("c_uint", "unsigned int ix"));
+        assert!(ok("*mut *mut CDagNode", "dag_node** dag"));
+        assert!(mis("*const ubounded", "ubounded minCost"));
+        assert!(mis("ubounded", "const ubounded* budget"));
+        assert!(mis("*const CTxEnv", "const frameItem* src"));
+        assert!(mis("*mut CDagNode", "dag_node** dag"));
+        assert!(mis("c_uchar", "size_t n"));
+        assert!(mis("u32", "uint64_t x"));
+        assert!(mis("bool", "int x"));
+        assert!(mis("SimplicityErr", "size_t"));
+        assert!(matches!(decls::compare("Foo", "size_t n", true, &w), Verdict::Unknown(_)));
+        assert!(matches!(decls::compare("u32", "struct foo x[3]", true, &w), Verdict::Unknown(_)));
+        assert!(matches!(decls::compare("", "void", false, &w), Verdict::Compatible(_)));
+        assert!(mis("", "int"));
+    }
+
+    #[test]
+    fn c14_survey() {
+        let t = tables().as_ref().expect("tables");
+        let w = widths();
+        println!("widths: {:?}", w);
+        println!("rust files {}, c files {}, fns {}, statics {}, macro expansions {}", t.rust_files, t.c_files, t.fns.len(), t.statics.len(), t.macros_expanded);
+        println!("unparsed extern items: {:?}", t.rust_unparsed_items);
+        let mut found = 0;
+        for (i, f) in t.fns.iter().enumerate() {
+            let protos = t.c_fns.get(&f.symbol).cloned().unwrap_or_default();
+            if !protos.is_empty() {
+                found += 1;
+            }
+            let jet = f.file.ends_with("jets_ffi.rs");
+            let mut lines = vec![];
+            for p in &protos {
+                if p.params.len() != f.params.len() {
+                    lines.push(format!("   ARITY {} vs {} [{}]", f.params.len(), p.params.len(), p.file));
+                    continue;
+                }
+                for (k, (rt, ct)) in f.params.iter().zip(&p.params).enumerate() {
+                    let v = decls::compare(rt, ct, true, &w);
+                    if v != Verdict::Compatible(vec![]) {
+                        lines.push(format!("   param {}: {} | {} -> {:?}", k, rt, ct, v));
+                    }
+                }
+                let v = decls::compare(&f.ret, &p.ret, false, &w);
+                if v != Verdict::Compatible(vec![]) {
+                    lines.push(format!("   ret: {} | {} -> {:?}", f.ret, p.ret, v));
+                }
+            }
+            lines.sort();
+            lines.dedup();
+            if !jet || protos.len() != 1 || lines.iter().any(|l| !l.contains("untyped")) || !f.problems.is_empty() {
+                println!("[{}] {:?} {} <{}> problems {:?}", i, f.kind, f.text, f.file, f.problems);
+                for p in &protos {
+                    println!("     C: {} <{}: {}>", p.text, p.file, p.origin);
+                }
+                for l in lines {
+                    println!("{}", l);
+                }
+            }
+        }
+        println!("declarations with a C prototype: {} of {}", found, t.fns.len());
+        for (i, s) in t.statics.iter().enumerate() {
+            let vars = t.c_vars.get(&s.symbol).cloned().unwrap_or_default();
+            let vs: Vec<String> = vars.iter().map(|v| format!("{} <{}> {:?}", v.text, v.file, decls::compare(&s.ty, &v.ty, false, &w))).collect();
+            println!("static [{}] {}: {} <{}>  C: {:?}", i, s.symbol, s.ty, s.file, vs);
+        }
+    }
 }
